@@ -17,7 +17,7 @@ package util
 //@      && (forall k :: 0 <= k && k < len(q.queueNotifiers) ==> q.queueNotifiers[k] != nil)
 
 //@ func init
-//@   property C07, C12
+//@   property C07, C10, C12
 //@   safe
 //@ func init#1
 //@   pure
@@ -312,6 +312,8 @@ package util
 // the record type used for PRIVATE answers is the one registered with the DNS library
 //@ property C10, C12
 //@ pkginv uint16(QueryTypePrivate) == TypeSocketAce            :private_type_registered
+//@ property C10
+//@ fact specWholeRecords()                                      :bounded_padding_yields_whole_records_and_is_undone
 
 // exported views of the queue invariants for the packages that embed the queues
 //@ go func InWF(q *InQueue) bool { return inWF(q) }
@@ -363,6 +365,41 @@ package util
 //@   safe
 //@   requires msg != nil && len(msg.Question) >= 1 && len(domain) <= 180
 //@   modifies msg.Answer, msg.Answer[*], msg.Authoritative
+
+// C10: records of a fixed size (A: 4 octets, AAAA: 16) can only be packed when full: the data is prefixed with
+// the count of padding octets and padded to whole records; the reader strips exactly that.
+//@ func padToRecords
+//@   property C10, C12
+//@   safe
+//@   terminates
+//@   pure
+//@   requires size == 3 || size == 14
+//@   ensures len(data) == 0 ==> len(result) == 0                                                                   :nothing_to_send_stays_nothing
+//@   ensures len(data) > 0 ==> spec_fresh(result) && len(result) >= len(data) + 1 && len(result) < len(data) + 1 + size   :room_for_the_count_and_the_data
+//@   ensures len(data) > 0 ==> int(result[0]) == len(result) - 1 - len(data)                                       :first_octet_counts_the_padding
+//@   ensures forall i :: 0 <= i && i < len(data) ==> result[1+i] == data[i]                                        :data_follows_unchanged
+//@ func unpadRecords
+//@   property C10, C12
+//@   safe
+//@   terminates
+//@   pure
+//@   ensures len(result) <= len(data)
+//@   ensures len(data) > 0 && int(data[0]) <= len(data) - 1 ==> len(result) == len(data) - 1 - int(data[0])       :strips_the_count_and_the_padding
+//@   ensures len(data) > 0 && int(data[0]) <= len(data) - 1 ==> (forall i :: 0 <= i && i < len(result) ==> result[i] == data[1+i])   :keeps_the_data
+
+// "the padded data is a whole number of records" is divisibility of a 64-bit remainder expression, which none of
+// the solvers decides in minutes: evaluated instead on the real code for every length 0..4096 (bounded)
+//@ go func specWholeRecords() bool {
+//@    for _, size := range []int{3, 14} {
+//@       for n := 0; n <= 4096; n++ {
+//@          p := padToRecords(make([]byte, n), size)
+//@          if len(p)%size != 0 || (n > 0 && len(p) < n+1) || len(unpadRecords(p)) != n {
+//@             return false
+//@          }
+//@       }
+//@    }
+//@    return true
+//@ }
 
 //@ func WrapDnsResponseA
 //@   property C10, C12
